@@ -544,10 +544,11 @@ func prepare(ec *execCtx, c *spec.Call, a *args, g *simrt.Group, mon *recMon) (b
 			case simrt.BudgetExceeded:
 				oc.Verdict = "BUDGET"
 				oc.Detail = p.Kind
-				oc.Site = p.Fn
 				fn, st := moduleFrame(t.PanicStack)
-				if fn != "" {
-					oc.Site = fn
+				oc.Site = fn
+				if p.Kind == "ticks" || p.Kind == "bytes" || fn == "" {
+					// the innermost function when the total budget ran out is arbitrary; name the busiest live activation
+					oc.Site = strings.TrimPrefix(p.Fn, "internal/")
 				}
 				oc.Stack = st
 				oc.Hash = hashOf("BUDGET|" + p.Kind)
@@ -793,7 +794,7 @@ func runConc(job *spec.Job) spec.Result {
 	simrt.ResetSync()
 	sc := simrt.SchedCfg{Policy: "random", MaxSteps: 1 << 24}
 	if job.Sched != nil {
-		sc = simrt.SchedCfg{Policy: job.Sched.Policy, Seed: job.Sched.Seed, Depth: job.Sched.Depth, EntryPct: job.Sched.EntryPct,
+		sc = simrt.SchedCfg{Policy: job.Sched.Policy, Seed: job.Sched.Seed, Depth: job.Sched.Depth, EntryPct: job.Sched.EntryPct, LoopPct: job.Sched.LoopPct,
 			Explicit: job.Sched.Explicit, MaxSteps: 1 << 24}
 	}
 	s := simrt.NewSched(sc)
